@@ -12,6 +12,14 @@ def SafeWithin (bound : Nat) : Out → Prop
 theorem SafeWithin.notOob {b : Nat} {r : Out} (h : SafeWithin b r) : r.isOob = false := by
   cases r <;> simp_all [SafeWithin, Out.isOob]
 
+theorem padEnd_isOob (capBits : Nat) (r : Out) : (padEnd capBits r).isOob = r.isOob := by
+  cases r <;> simp only [padEnd] <;> (try split) <;> rfl
+
+theorem padEnd_isOobObject (capBits : Nat) (r : Out) : (padEnd capBits r).isOobObject = r.isOobObject := by
+  cases r <;> simp only [padEnd] <;> (try split) <;> rfl
+
+theorem le_pad8 (n : Nat) : n ≤ pad8 n := by unfold pad8; omega
+
 theorem elemLoop_safe (capBits eb sl : Nat) : ∀ (r i off : Nat), i + r ≤ sl →
     SafeWithin (off + r * eb) (elemLoop capBits eb sl r i off)
   | 0, i, off, _ => by simp [elemLoop, SafeWithin]
